@@ -272,10 +272,67 @@ func runC19(a *A) {
 			if drainSel == nil {
 				continue
 			}
+			// newChannelFull: the exit is taken when the new, still private channel cannot take another row:
+			// `k < cap(new)` / `len(new) < cap(new)` found false, k counting the rows sent into it (0, +1 per
+			// send). That is a limit of the destination, not a decision about the source: nothing the loop could
+			// do instead would move the remaining rows (a send would block for ever under the lock).
+			newChannelFull := func(b *ssa.BasicBlock, sc *ssa.BasicBlock) bool {
+				iff, ok := b.Instrs[len(b.Instrs)-1].(*ssa.If)
+				if !ok || !isMk {
+					return false
+				}
+				bo, ok := iff.Cond.(*ssa.BinOp)
+				if !ok || bo.Op != token.LSS || b.Succs[1] != sc {
+					return false
+				}
+				capOf, ok := bo.Y.(*ssa.Call)
+				if !ok {
+					return false
+				}
+				cc, ok := isBuiltinCall(capOf, "cap")
+				if !ok || resolve(cc.Args[0]) != ssa.Value(mk) {
+					return false
+				}
+				if l, ok := bo.X.(*ssa.Call); ok {
+					if lc, ok := isBuiltinCall(l, "len"); ok && resolve(lc.Args[0]) == ssa.Value(mk) {
+						return true
+					}
+				}
+				// a counter: phi [0, k+1] whose increment sits in a block that sends to the new channel
+				phi, ok := bo.X.(*ssa.Phi)
+				if !ok {
+					return false
+				}
+				for i, e := range phi.Edges {
+					if lp.Blocks[phi.Block().Preds[i]] {
+						ok2 := false
+						for _, l := range phiLeaves(e) {
+							if l == ssa.Value(phi) {
+								continue
+							}
+							inc, isInc := l.(*ssa.BinOp)
+							if !isInc || inc.Op != token.ADD || inc.X != ssa.Value(phi) || !isConstInt(inc.Y, 1) {
+								return false
+							}
+							for _, in := range inc.Block().Instrs {
+								if sd, isSend := in.(*ssa.Send); isSend && resolve(sd.Chan) == ssa.Value(mk) {
+									ok2 = true
+								}
+							}
+						}
+						if !ok2 {
+							return false
+						}
+					} else if !isZeroConst(e) {
+						return false
+					}
+				}
+				return true
+			}
 			var bad *ssa.BasicBlock
 			for b := range lp.Blocks {
 				for _, sc := range b.Succs {
-					if !lp.Blocks[sc] && !(drainSel.Block() == b || drainSel.Block().Dominates(b)) {
+					if !lp.Blocks[sc] && !(drainSel.Block() == b || drainSel.Block().Dominates(b)) && !newChannelFull(b, sc) {
 						bad = b
 					}
 				}
